@@ -777,9 +777,22 @@ Definition sx_of_wfacts (wf : wfacts) : sx :=
      sx_of_bool (wf_detach_first wf); sx_of_bool (wf_wait_outside wf); sx_of_bool (wf_has_worker wf);
      sx_of_bool (wf_reply_after wf); I (wf_done_code wf); I (wf_wait_fail wf)].
 
+(* run a trace, then ABOR and everything that follows without further input (abor_run).
+   a = (pool events) ; result = (alive ledger abor-replies workers-after-unwinding all-abor_safe
+                                 ledger-before workers-before replies-before) *)
+Definition run_abor (F : cfg) (a : sx) : sx :=
+  let evs := map event_of_sx (list_of_sx (nth_sx 1 a)) in
+  let '(st, rs) := run F (init (bool_of_sx (nth_sx 0 a))) evs in
+  let '(st', ra) := abor_run F st in
+  L [sx_of_bool (alive (ss st')); sx_of_zs (ledger F st'); sx_of_zs ra;
+     L (map (sx_of_wrk F) (ws (unwind F (fst (step F st Abor)))));
+     sx_of_bool (forallb (abor_safe F) (ws st)); sx_of_zs (ledger F st); L (map (sx_of_wrk F) (ws st));
+     sx_of_zs rs].
+
 Definition run_transfer (F : cfg) (fn : Z) (a : sx) : sx :=
   match fn with
   | 0%Z => run_trace F a
+  | 3%Z => run_abor F a
   | 1%Z => L [sx_of_bool (sound12 F); sx_of_bool (sound14 F); sx_of_bool (workers_ok F);
               sx_of_bool (fin_ok (c_fin F)); sx_of_bool (cancel_codes_ok F);
               I (match c_abor F with AbTruthy => 0 | AbNotDone => 1 | AbUnknown => 2 end)%Z;
